@@ -26,7 +26,7 @@ RULE = (
     "every added .iwa member has exactly one ComponentInfo naming an object it holds; new external references of the metadata resolve; per "
     "touched table: tiles cover exactly number_of_rows, one row record per row, row indices in range and unique, offsets count = columns, "
     ">= -1, strictly increasing, 4-byte aligned, in bounds, record lengths implied by their own flag words tile the buffer exactly (no overlap, no gap), "
-    "cell_count = present offsets. Every 5th run is a plain re-save of a shipped fixture; every 5th handles 2-3 documents (each shipped fixture in turn, and new documents, in both orders) in the one process, each getting add_table/add_sheet/caption plus other object-creating edits before its save. distinct = event-log digest; non-trivial = >= 1 package validated after >= 3 object-creating ops, or a fixture re-save"
+    "cell_count = present offsets. Every 50th run is a lineage of 10-13 open/extend/save generations of one document. Every 5th run is a plain re-save of a shipped fixture; every 5th handles 2-3 documents (each shipped fixture in turn, and new documents, in both orders) in the one process, each getting add_table/add_sheet/caption plus other object-creating edits before its save. distinct = event-log digest; non-trivial = >= 1 package validated after >= 3 object-creating ops, or a fixture re-save"
 )
 ASSUMPTIONS = [
     "'sound' means the invariants the statement lists, not acceptance by Apple Numbers",
@@ -184,6 +184,30 @@ def gen(seed: int, tier: str, idx=None):
             g.emit({"op": "restart", "d": 0, "slot": slot})
             cfg["fixture_controls"] = True
             return cfg, g.ops
+    if idx is not None and idx % 50 == 11:
+        # a long lineage: the same document opened, extended and saved 10-13 times in a row (the identifier base rises
+        # with every generation; names of added archives carry identifiers of growing length)
+        cfg["lineage"] = True
+        rows, cols = pick_shape(rng, "tiny")
+        g.emit({"op": "new_doc", "rows": rows, "cols": cols, "hr": min(1, rows), "hc": min(1, cols)})
+        slots = list(ALL_SLOTS)
+        for cycle in range(rng.randint(10, 13)):
+            for _ in range(rng.choice([1, 1, 2, 2])):
+                m = g.ms.docs[0].model
+                if m.ncells() > 600:
+                    break
+                if rng.random() < 0.8:
+                    g.emit({"op": "add_table", "d": 0, "s": rng.randrange(len(m.sheets)), "rows": rng.randint(1, 3), "cols": rng.randint(1, 3), "hr": 0, "hc": 0})
+                else:
+                    g.emit({"op": "add_sheet", "d": 0, "rows": rng.randint(1, 3), "cols": rng.randint(1, 3)})
+                m = g.ms.docs[0].model
+                s2 = rng.randrange(len(m.sheets))
+                t2 = rng.randrange(len(m.sheets[s2].tables))
+                g.emit({"op": "write", "d": 0, "s": s2, "t": t2, "r": 0, "c": 0, "v": V.enc(rng.choice(["x", 1.5, True, "lineage"]))})
+            slot = slots[cycle % len(slots)]
+            g.emit({"op": "save", "d": 0, "slot": slot})
+            g.emit({"op": "restart", "d": 0, "slot": slot})
+        return cfg, g.ops
     if idx is not None and idx % 5 == 2:
         # several documents handled by one process, one after another or side by side: whatever the library remembers
         # from one document (memoised identifiers, shared lookup lists, id counters) must not reach the package of the next
